@@ -32,11 +32,13 @@ def parseKind : String → Option Kind
   | _ => none
 
 def parseOpt (idx : Nat) (l : LayerCfg) (o : String) : Option LayerCfg :=
-  if o == "s" then some { l with sticky := some ("sk" ++ toString idx) }
+  if o == "s" then some { l with sticky := some ("sk" ++ String.ofList (List.replicate (9 - idx) '0')) }
   else if o == "fr" then some { l with fallback := .redirect "" }
   else if o == "frp" then some { l with fallback := .redirect "/p" }
   else if o == "t" then some { l with retry := true }
   else if o == "v" then some { l with verbose := true }
+  -- trace/wf: the sink of the trace records fails on every write; logged, no effect on the request / response path
+  else if o == "wf" then some l
   else
     let v := (o.drop 1).toString
     match v.toNat? with
